@@ -149,14 +149,24 @@ def run_plan(plan, scratch, extra_args=(), timeout=60, env=None, want_stderr=Fal
     if not os.path.exists(S4USIM):
         raise dst.Infra('s4usim not built')
     pf = '%s/plan.%d.txt' % (scratch, os.getpid())
+    extra = []
+    for name, content in plan.get('contentfiles', {}).items():
+        cf = '%s/%s.%d' % (scratch, name, os.getpid())
+        with open(cf, 'w') as f:
+            f.write(content)
+        extra.append((name, cf))
+    txt = plan_text(plan)
+    for name, cf in extra:
+        txt = txt.replace('@' + name + '@', os.path.basename(cf))  # resolved against the cwd by simgrid
     with open(pf, 'w') as f:
-        f.write(plan_text(plan))
+        f.write(txt)
     cmd = [S4USIM, pf, '--log=no_loc', '--log=root.fmt:[%r]%e[%a]%e[%c/%p]%e%m%n'] + list(extra_args)
-    rc, out, err, to = dst.run_proc(cmd, timeout=timeout, env=env)
-    try:
-        os.unlink(pf)
-    except OSError:
-        pass
+    rc, out, err, to = dst.run_proc(cmd, timeout=timeout, env=env, cwd=scratch)
+    for f in [pf] + [cf for _, cf in extra]:
+        try:
+            os.unlink(f)
+        except OSError:
+            pass
     text = out.decode('utf-8', 'replace')
     res = dict(rc=rc, timed_out=to, log=text)
     if want_stderr:
